@@ -13,7 +13,8 @@ RULE = ('(a) exact structural stream: real KFACEigenLayer / KFACInverseLayer on 
         'of two): compute_a_inv / compute_g_inv / preconditioned_grad / update_grad compared EXACTLY with the Lean '
         'rational formulas; (b) residual oracle: after a real step the float64 residual of the defining linear system, '
         'scaled by its conditioning, for float32/float64/bfloat16 parameters and inv dtypes; (c) multi-step runs '
-        'through kfacsim vs the model\'s value terms and the reference solver; non-trivial = non-square layer (g ≠ a)')
+        'through kfacsim vs the model\'s value terms and the reference solver; non-trivial = non-square layer (g ≠ a)'
+        ' (incl. resume histories into a preconditioner constructed with other constants; directed symmetric-broadcast corners)')
 TRUSTED = [
     'Lean 4.33 kernel + Mathlib; axioms audited ⊆ {propext, Classical.choice, Quot.sound}',
     'hand-written model KV.Alg (eigenPrecond, eigenPrecondPre, invPrecond, clamp0, getGrad/setGrad) tied to '
